@@ -1292,10 +1292,11 @@ theorem lexer_shape_table_check :
     Gen.C13.identExcludesWhitespace = true ∧ Gen.C13.lexerPunct = assumedPunct := by decide
 
 /-- the xml tags `Px.decode` looks for are the struct tags of io/phyloxml, the order name / scientific name /
-    code of `Px.Clade.label` is the if-chain of cladeToTree, and the support is read under `len(c.Clades) > 0` -/
+    code of `Px.Clade.label` is the if-chain of cladeToTree, and the support is read exactly for clades that have
+    children (the guard of SetSupport evaluated on 0, 1, 2, 3 children; its spelling is in the table for information) -/
 theorem phyloxml_tags_table_check :
     Gen.C13.xmlTags = assumedXmlTags ∧ Gen.C13.cladeNameOrder = assumedNameOrder ∧
-    Gen.C13.supportGuard = assumedSupportGuard := by decide
+    Gen.C13.supportGuardProbes = assumedSupportProbes := by decide
 
 /-- `readMulti` / `readFirst` dispatch as `ReadMultiTrees` / `ReadTreeReader` do: four constants in iota
     order, each reaching the parser of its package -/
